@@ -89,6 +89,7 @@ def showIpRes : Res IpErr → String
   | .ok _ => "ok"
   | .err .parse => "err:ip"
   | .err .mode => "err:mode"
+  | .err .pfxHalves => "err:pfxhalves"
   | .err (.key m v4) => s!"err:key:{showMode m}:{m.keyLen}:{if v4 then "4" else "6"}"
   | .panic => "panic"
 
